@@ -40,6 +40,7 @@ mod timecmd;
 mod pickercmd;
 mod evalcmd;
 mod searchcmd;
+mod keypairs;
 
 fn main() {
     // Panics inside the code under test are data: keep the default hook quiet and let
@@ -68,6 +69,7 @@ fn main() {
         "picker" => pickercmd::main(rest),
         "eval" => evalcmd::main(rest),
         "search" => searchcmd::main(rest),
+        "keypairs" => keypairs::main(rest),
         other => {
             eprintln!("unknown subcommand {other}");
             2
